@@ -1,0 +1,72 @@
+//go:build verif
+
+// Thin exported wrappers around unexported 07-tendermint helpers, compiled only with
+// `-tags verif` (used by the /verif correspondence harness). No behaviour of its own.
+
+package tendermint
+
+import (
+	"time"
+
+	"github.com/cosmos/cosmos-sdk/codec"
+	storetypes "github.com/cosmos/cosmos-sdk/store/v2/types"
+	sdk "github.com/cosmos/cosmos-sdk/types"
+
+	"github.com/cosmos/ibc-go/v11/modules/core/exported"
+)
+
+func VerifSetClientState(clientStore storetypes.KVStore, cdc codec.BinaryCodec, cs *ClientState) {
+	setClientState(clientStore, cdc, cs)
+}
+
+func VerifGetClientState(clientStore storetypes.KVStore, cdc codec.BinaryCodec) (*ClientState, bool) {
+	return getClientState(clientStore, cdc)
+}
+
+func VerifSetConsensusState(clientStore storetypes.KVStore, cdc codec.BinaryCodec, cs *ConsensusState, height exported.Height) {
+	setConsensusState(clientStore, cdc, cs, height)
+}
+
+func VerifDeleteConsensusState(clientStore storetypes.KVStore, height exported.Height) {
+	deleteConsensusState(clientStore, height)
+}
+
+func VerifSetConsensusMetadata(ctx sdk.Context, clientStore storetypes.KVStore, height exported.Height) {
+	setConsensusMetadata(ctx, clientStore, height)
+}
+
+func VerifSetConsensusMetadataWithValues(clientStore storetypes.KVStore, height, processedHeight exported.Height, processedTime uint64) {
+	setConsensusMetadataWithValues(clientStore, height, processedHeight, processedTime)
+}
+
+func VerifDeleteConsensusMetadata(clientStore storetypes.KVStore, height exported.Height) {
+	deleteConsensusMetadata(clientStore, height)
+}
+
+func (cs *ClientState) VerifPruneOldestConsensusState(ctx sdk.Context, cdc codec.BinaryCodec, clientStore storetypes.KVStore) {
+	cs.pruneOldestConsensusState(ctx, cdc, clientStore)
+}
+
+func VerifBigEndianHeightBytes(height exported.Height) []byte {
+	return bigEndianHeightBytes(height)
+}
+
+func VerifCalculateNewTrustingPeriod(trustingPeriod, originalUnbonding, newUnbonding time.Duration) time.Duration {
+	return calculateNewTrustingPeriod(trustingPeriod, originalUnbonding, newUnbonding)
+}
+
+func VerifCheckTrustedHeader(header *Header, consState *ConsensusState) error {
+	return checkTrustedHeader(header, consState)
+}
+
+func VerifCheckMisbehaviourHeader(clientState *ClientState, consState *ConsensusState, header *Header, currentTimestamp time.Time) error {
+	return checkMisbehaviourHeader(clientState, consState, header, currentTimestamp)
+}
+
+func (cs *ClientState) VerifVerifyHeader(ctx sdk.Context, clientStore storetypes.KVStore, cdc codec.BinaryCodec, header *Header) error {
+	return cs.verifyHeader(ctx, clientStore, cdc, header)
+}
+
+func (cs ClientState) VerifStatus(ctx sdk.Context, clientStore storetypes.KVStore, cdc codec.BinaryCodec) exported.Status {
+	return cs.status(ctx, clientStore, cdc)
+}
